@@ -39,7 +39,7 @@ func tagImportParser(doc *Parser, start *Token, arguments *Parser) (INodeTag, *E
 	}
 
 	// Compile the given template
-	tpl, err := doc.template.set.FromFile(importNode.filename)
+	tpl, err := doc.template.set.fromFileNested(doc.template, importNode.filename)
 	if err != nil {
 		return nil, err.(*Error).updateFromTokenIfNeeded(doc.template, start)
 	}
